@@ -92,6 +92,29 @@ claim('C04', 'other',
       TRUST + ' Relations used: cos^2+sin^2=1, sqrt(u)^2=u; clip() is treated as an uninterpreted function in the same places on both sides. '
       'Feasibility lemma (F.6.5 geometry): raw delta > 0 iff sweep != large_arc.', 'DESIGN.md section 3 C04')
 
+claim('C01', 'other',
+      'abstract interpretation of writer (Path.d) and reader (Path._parse_path) composed through a lexer model, over symbolic paths of every '
+      'shape x option combination, with linear equality reasoning on the explored label paths; regex->DFA language inclusion',
+      'Decides the composition parse(tokens(d(path))) == path as polynomial identities in all coordinates, for every sequence of segment '
+      'classes (<= 2 segments quick plus selected 3-segment shapes; all <= 3 thorough) x joint continuity x closedness x the 8 option '
+      'combinations, on every label path (coincidences of distinct points, smoothness equations under which S/T is emitted, Z decisions), '
+      'that every printed number uses the full-precision default format and is separated, and that everything the writer can print lies in '
+      'the lexer\'s language. Found and repaired F01 and F23 this way. Not decided: float repr/float exactness (CPython guarantee), rounding '
+      'of emitted differences in relative form, the <=1e-12 radius caveat, leftmost-greedy tokenisation order.',
+      TRUST + ' Lexer model: commands split the string, numbers are separated by blanks/commas (justified at language level by R01.6/R02.8).',
+      'DESIGN.md section 3 C01')
+
+claim('C02', 'other',
+      'abstract interpretation of Path._parse_path on token programs (all command sequences of bounded length with symbolic numbers) against '
+      'the SVG 1.1 section 8.3 semantics transcribed in the checker; regex->DFA language equality for the lexer',
+      'Decides, for all numeric arguments at once, that every program [Mm] + up to 2 (quick) / 3 (thorough: 16000 programs) of the 20 command '
+      'letters, with implicit repetitions and closepath contexts, parses to exactly the segment list the SVG semantics prescribes: abs/rel '
+      'operands, implicit lineto after moveto, S/T reflection and its fallback, closepath line only when the pen is elsewhere, commands '
+      'after Z, zero-radius arcs. This is exhaustive over the parser\'s finite control state (command, last command, abs/rel). Lexer: '
+      'L(FLOAT_RE) equals the SVG number language, command letters cannot occur inside numbers, arc operands are tokenised with '
+      'single-character flags for both A and a. Not decided: ungrammatical input, tokenisation priority, float().',
+      TRUST + ' The SVG semantics oracle is transcribed by hand (checks/c02.py:svg_semantics).', 'DESIGN.md section 3 C02')
+
 ALL = ['C%02d' % i for i in range(1, 21)]
 for pid in ALL:
     if pid not in CLAIMED and pid not in NOT_APPLICABLE:
